@@ -76,6 +76,38 @@ type HTTPResult struct {
 	PanicMsg string
 }
 
+// HTTPTo is HTTP with the response body streamed into sink.
+func (n *Node) HTTPTo(ctx context.Context, method, target string, sink io.Writer) (res HTTPResult) {
+	req, err := http.NewRequestWithContext(ctx, method, "http://"+n.Name+":20202"+target, http.NoBody)
+	if err != nil {
+		return HTTPResult{Code: -1, PanicMsg: err.Error()}
+	}
+	req.RequestURI = target
+	req.RemoteAddr = "sim:0"
+	req.Proto, req.ProtoMajor, req.ProtoMinor = "HTTP/2.0", 2, 0
+	w := newSimResp()
+	w.onWrite = func(p []byte) error { _, err := sink.Write(p); return err }
+	func() {
+		defer func() {
+			if rec := recover(); rec != nil {
+				if _, ok := rec.(nodeExit); ok {
+					return
+				}
+				res.Panicked = true
+				res.PanicMsg = fmt.Sprintf("%v", rec)
+			}
+		}()
+		n.Handler.ServeHTTP(w, req)
+	}()
+	w.mu.Lock()
+	res.Code, res.Header = w.code, w.hdr
+	if !w.wrote && !res.Panicked {
+		res.Code = 200
+	}
+	w.mu.Unlock()
+	return res
+}
+
 // HTTP invokes the node's real API handler in-process (h2c prior-knowledge
 // shape: ProtoMajor 2 unless http1 is set). A handler panic is what net/http
 // would turn into a dropped connection without a response.
